@@ -504,8 +504,10 @@ def random_spec(rng, sid, nmin=3, nmax=6, external=False, decoy=False, struct_va
             k = rng.randint(2, min(3, len(produced)))
             ftypes = rng.sample(produced, k)
             fields = [['F%d' % j, ft] for j, ft in enumerate(ftypes)]
-            types[sname] = {'form': 'bstruct', 'fields': fields, 'pkg': ''}
             listed = ['*'] if rng.random() < 0.5 else [f[0] for f in fields[: rng.randint(1, len(fields))]]
+            if listed == ['*'] and rng.random() < 0.5:
+                fields[-1][0] = 'f%d' % (len(fields) - 1)      # wire fills unexported fields of a struct of the injector's own package
+            types[sname] = {'form': 'bstruct', 'fields': fields, 'pkg': ''}
             if listed != ['*'] and any(types.get(ft.lstrip('*'), {}).get('form') == 'bstruct' and not ft.startswith('*')
                                        for fn_, ft in fields if fn_ not in listed):
                 listed = ['*']
